@@ -160,8 +160,9 @@ Section Cubic.
       apply N.even_spec in Ev. destruct Ev as [m Hm].
       assert (Hdiv : (n / 2 = m)%N) by (subst n; rewrite N.mul_comm; apply N.div_mul; lia).
       replace (1 <? n)%N with true by (symmetry; apply N.ltb_lt; lia).
-      cbv iota beta. Set Printing All. Show. Check simpson13_cubic. Unset Printing All.
-      rewrite simpson13_cubic by (rewrite Hdiv; lia).
+      cbv iota beta.
+      assert (Hside : (1 <= n / 2)%N) by (rewrite Hdiv; lia).
+      rewrite (simpson13_cubic h a n Hside).
       cbn [bind nadd n0 RNum]. f_equal.
       rewrite Hdiv. replace (a + RN m * (2 * h)) with b; [ring|].
       rewrite Hh, Hm, RN_double. ring.
